@@ -398,7 +398,7 @@ def _sys(pid, extra_domains, level_text, explanation, extra_assume=()):
         "trusted_base": _SYS_TRUSTED,
     }
 
-PROPS["C02"] = _sys("C02", ["policy", "mgr"],
+PROPS["C02"] = _sys("C02", ["policy", "mgr", "prunestep"],
     "Theorems: the CanApply/CanPrune matrix (all owners, all policies); a delete request is sent by the prune step only if every guard of the "
     "filter chain holds (UID present, no deletion-prevention annotation, policy accepts the owner, namespace not in use, every dependent deleted "
     "and reconciled, not the UID of an object just applied, not dry-run) and then names the object with the planning-time UID as precondition and "
@@ -409,10 +409,24 @@ PROPS["C02"] = _sys("C02", ["policy", "mgr"],
     "VALID prune candidate — an object listed in the stored inventory at the start of the run, existing, and not in the apply set (delete_only_tracked, "
     "apply_only_manifests). Tie: exhaustive grid through the real policy functions and stateless filters (domain policy), "
     "the real inventory Manager whose AppliedResourceUIDs feeds the just-applied filter (domain mgr, shared with C19), "
+    "ONE prune step through the real PruneTask + Pruner + the filter chain as applier.go / destroyer.go assemble it, with the manager table as an "
+    "input so that two ids can share a UID (API-group alias of a just-applied object) — compared with Sys.pruneOne (domain prunestep), "
     "whole runs with a recording API server that sees Delete options (domain sys-C02).",
     "Spec predicates on the implementation: every observed DELETE is authorised (in previous inventory, not in apply set, policy, annotations, "
     "namespace, UID precondition = planning-time UID, propagation), every apply over an existing object satisfies CanApply, spared objects are "
     "abandoned / retained as stated.")
+PROPS["C02"]["rule"] = _SYS_RULE + (
+    " prunestep: ONE prune step through the real task.PruneTask + prune.Pruner with the real filter chain (PreventRemove, InventoryPolicyPrune, "
+    "LocalNamespaces for apply runs, Dependency, CurrentUID built by PruneTask.Start from the real Manager): exhaustive grid owner {none, this "
+    "inventory, another} x {plain, keep, detach} x 3 policies x 3 dry-run modes x apply/destroy x 13 relations between the object's UID and the "
+    "manager table (no applied record, other UID, unknown UID, same UID on a failed / skipped / pending apply or a successful delete, same UID on a "
+    "SUCCESSFUL apply of an alias id with each of the 5 reconcile statuses, alias behind another record) x 4 dependent situations (reduced behind a "
+    "prevention annotation); request grid (object gone / replaced / unchanged in the store x finalizer x rejected request x propagation x missing "
+    "planning-time UID); namespaces in use; one dependent with every manager record / invalid / unregistered (all 82 cells, with and without an alias) "
+    "and a sample (thorough: all) of the pairs; 8000 (quick) / 120000 (thorough) random mixes of all dimensions. Compared with Sys.pruneOne: result "
+    "event, every mutating request (verb, id, dry-run flag, UID precondition, propagation, result), abandoned flag, manager record, store afterwards.")
+PROPS["C02"]["trusted_base"] = _SYS_TRUSTED + [
+    "step-level property predicate and St construction for the prunestep domain: lean/CliUtils/Drv/PruneStep.lean (violations, stOf)"]
 PROPS["C04"] = _sys("C04", ["depfilter", "wait", "depgraph"],
     "Theorems: the dependency gate passes exactly when EVERY dependency is valid, registered with the same strategy, actuated successfully and "
     "(outside dry-run) recorded as reconciled (iff, for all tables and dependency lists); an object is handed to kubectl only if the gate passed "
@@ -449,13 +463,21 @@ PROPS["C01"] = _sys("C01", [],
     "(applyOne_keeps_inv, pruneOne_keeps_inv); the final replace keeps every successfully applied object and every tracked object in a "
     "retention class or invalid, and drops only abandoned objects and objects in no retention class (keeps_*, dropped_only_if, via the "
     "inventory formula of C03); the inventory object is deleted only when nothing is left to retain (C03.destroy_successful_nothing_retained); "
-    "an aborted run never reaches the final replace (abort_stops). The end-to-end invariant — no live annotated object outside the stored "
+    "an aborted run never reaches the final replace (abort_stops). WHOLE RUN AND HISTORIES (Props/C01F.lean, C01H.lean; Lemmas/FinalL.lean, HistoryL.lean): "
+    "no_orphan_run — for every cluster and every non-dry run, after EVERY mutating request (the snapshot taken after each) and at the end, every live "
+    "annotated object is listed in the stored inventory, whatever request fails, whatever the status feed reports, whenever the run is cancelled — via the "
+    "invariant Tracked (each live annotated object is tracked-invalid, or has an apply record consistent with the remaining plan, or a delete record that "
+    "is not 'succeeded and observed gone'), established by the merge, preserved by every apply / prune step and every wait phase (all scripts), and "
+    "implying that the final task retains it (final_task_safe, tracked_retained); no_orphan_history lifts it to every finite history of apply / dry-run / "
+    "destroy runs (store well-formedness, known kinds and orphan-freedom are re-established by every run: runOne_storeWF, runOne_kindsKnown). The end-to-end invariant — no live annotated object outside the stored "
     "inventory at ANY prefix of the mutating-request trace, including after a rejected request — is evaluated on every store snapshot of every "
     "generated history of the real implementation (and of the model), with every request index injected as failure point by the generator.",
     "Spec predicate noOrphans on every snapshot: every object carrying this inventory's annotation is listed in the stored inventory (the inventory "
     "namespace is exempt until the stored inventory has listed it once).",
-    ["the final inventory task is not yet part of the machine-checked invariant (no_orphan_from_start covers every request from the start of an apply "
-     "run up to that task; see Props/C01.lean / C01F.lean for what is proved about the final task)"])
+    ["no_orphan_run / no_orphan_history hypotheses: the start store is a well-formed API-server store (one object per id, one id per uid, no uid the "
+     "server hands out later), every stored object is of a kind the mapper knows, the delete-wait scripts are the three the harness produces, and the "
+     "documented exception: a non-dry apply run that has the inventory namespace in its apply set starts from a store in which it exists "
+     "(known finding C01.inventory-namespace-apply-failed); Props/C01F.lean proves each hypothesis necessary in the model by a decide-checked example"])
 PROPS["C03"] = _sys("C03", [],
     "Theorems: the inventory formula as an exact membership characterisation of the final inventory (successful applies + tracked objects whose "
     "apply/delete failed or was skipped or whose reconcile failed/timed out, minus abandoned, + tracked invalid), no repeats, nothing foreign; "
